@@ -101,7 +101,7 @@ class C03(Spec):
     def table_obligations(self):
         return ["c03_current_orders", "c03_no_consume", "c03_lock_tables", "c03_lock_tables_cover", "c03_mutex_no_touch_after_publish",
                 "c03_walk_reads_next_before_resume", "c03_unlock_unlinks_before_resume", "c03_final_resolve_before_destroy",
-                "c03_awaiter_no_touch_after_publish", "c03_sites_accounted", "c03_rmw_shapes"]
+                "c03_awaiter_no_touch_after_publish", "c03_sites_accounted", "c03_rmw_shapes", "c03_tracer_ref_before_publish"]
 
     def prebuild(self):
         tsan_binary()
@@ -177,6 +177,12 @@ class C03(Spec):
             found += self._baton_search("c07")
         if broken & {"c03_walk_reads_next_before_resume", "c03_final_resolve_before_destroy", "c03_awaiter_no_touch_after_publish"}:
             found += self._baton_search("c02")
+        if "c03_tracer_ref_before_publish" in broken:
+            try:
+                found += self._baton_search("c17")
+            except Exception as e:
+                core.log("baton search c17: %r" % (e,))
+            scenarios += ["shared"]
         if broken & {"c03_sites_accounted", "c03_rmw_shapes"}:
             for other in ("c01", "c07", "c15", "c19"):
                 if not found:
